@@ -45,6 +45,20 @@ def trip_bound(f, fa, iv, h, body):
             il, ih = iv.interval(lo, site[0]), iv.interval(hi, site[0])
             if il is not None and ih is not None:
                 return max(0, ih[1] - il[0] + 1)
+        if y.op == "call" and y.args[0].endswith("impl core::iter::IntoIterator for &[T]>::into_iter") and y.args[1]:
+            # `for x in slice` = slice.iter()
+            y = mk("call", "core::slice::<impl [T]>::iter", (y.args[1][0],), *y.args[2:])
+        if y.op == "call" and y.args[0] == "core::slice::<impl [T]>::iter" and y.args[1]:
+            # text.as_bytes().iter(): one item per byte of the string (the deref of an ArrayString<N>)
+            z = y.args[1][0]
+            while z.op in ("ref", "mem", "memval"):
+                z = z.args[0]
+            if z.op == "call" and z.args[0] == "core::str::<impl str>::as_bytes":
+                z = z.args[1][0]
+                while z.op in ("ref", "mem", "memval"):
+                    z = z.args[0]
+                if z.op == "call" and z.args[0] == "<util::array_string::ArrayString<N> as core::ops::Deref>::deref":
+                    return libmodel.capacity_of_type(libmodel.obj_type(z.args[1][0]))
         if y.op == "call" and y.args[0] in ("core::str::<impl str>::bytes", "core::str::<impl str>::chars"):
             # at most one item per byte of the string; the string is the deref of an ArrayString<N>
             z = y.args[1][0]
